@@ -27,6 +27,15 @@ func (r *Run) execInstr(fr *Frame, st *State, reach Term, ins ssa.Instruction, o
 		v := termVal(ref, ins.Type())
 		fr.regs[ins] = v
 		r.zeroInit(st, v, el)
+		switch el.Underlying().(type) {
+		case *types.Struct, *types.Array:
+		default:
+			if ins.Comment != "" && ins.Comment != "varargs" {
+				// a named local whose address is taken or that a closure captures
+				bc, _ := r.boxComp(el)
+				r.localBoxes = append(r.localBoxes, localBox{bc, ref})
+			}
+		}
 		return reach, false
 	case *ssa.Store:
 		addr := r.operand(fr, st, ins.Addr)
